@@ -14,6 +14,7 @@ That one active call occupies one machine stack frame (unoptimised builds) is NO
 it is the assumption the differential tie validates (harness/props/c16).
 -/
 import SophiaModel.Basic.Term
+import SophiaModel.Model.DepthNest
 import SophiaModel.Gen.RecursionSites
 
 namespace SophiaModel.Depth
@@ -232,24 +233,6 @@ def markLoopAux : List Nat → List Cell → List Nat
 
 def markLoop (cells : List Cell) : List Nat × Nat := (markLoopAux [] cells, min 1 cells.length)
 
-/-! ## recursion on nesting only -/
-
-/-- nesting depth of quoted triples -/
-def nesting : Term → Nat
-  | .triple s p o => 1 + max (nesting s) (max (nesting p) (nesting o))
-  | _ => 0
-
-/-- `write_term` (nt.rs, _pretty.rs) and `Term::{eq,cmp,hash}`: one call per level of quoting -/
-def termDepth : Term → Nat
-  | .triple s p o => 1 + max (termDepth s) (max (termDepth p) (termDepth o))
-  | _ => 1
-
-/-- `nq` (c14n/src/_cnq.rs): as `write_term`, plus one call for the datatype IRI of a literal -/
-def nqDepth : Term → Nat
-  | .triple s p o => 1 + max (nqDepth s) (max (nqDepth p) (nqDepth o))
-  | .lit _ _ => 2
-  | _ => 1
-
 /-- `find_subject` (_pretty.rs): binary search written as recursion on half of the slice.
 `cmp x` is `Term::cmp(&swt[m].1, s)`. -/
 def findSubject (cmp : Nat → Ordering) (swt : List Nat) : Option Nat × Nat :=
@@ -280,6 +263,31 @@ def bgpRec {P B : Type} (ms : P → B → List B) : List P → B → List B × N
   | p :: ps, b =>
     let rs := (ms p b).map (bgpRec ms ps)
     (rs.flatMap (·.1), 1 + rs.foldl (fun d r => max d r.2) 0)
+
+/-! ## `DedupIterator::next` (`turtle/src/serializer/_pretty.rs`)
+
+`previous: Option<Item>`; an item equal to the previous one is skipped. -/
+
+structure DedupResult (α : Type) where
+  item : Option α
+  prev : Option α
+  rest : List α
+  depth : Nat
+  deriving Repr, DecidableEq
+
+/-- as a `loop` (today's text) -/
+def dedupLoop {α : Type} [DecidableEq α] : Option α → List α → DedupResult α
+  | prev, [] => ⟨none, prev, [], 1⟩
+  | prev, x :: xs => if some x ≠ prev then ⟨some x, some x, xs, 1⟩ else dedupLoop prev xs
+
+/-- with the skip written as `return self.next()` -/
+def dedupRec {α : Type} [DecidableEq α] : Option α → List α → DedupResult α
+  | prev, [] => ⟨none, prev, [], 1⟩
+  | prev, x :: xs =>
+    if some x ≠ prev then ⟨some x, some x, xs, 1⟩
+    else
+      let r := dedupRec prev xs
+      { r with depth := r.depth + 1 }
 
 /-! ## Sites of the generated table -/
 
@@ -328,20 +336,61 @@ def Fn.arity : Fn → Nat
   | .bcdNext | .spoNext => 2
   | _ => 1
 
-/-- the constant number of nested calls the harness inputs need at a site that recurses on nesting
-only (flat terms, one flat list, queries of two patterns / one operator under `GRAPH`) -/
-def Fn.nestingDepth : Fn → Nat
-  | .nq => 2
-  | .bgpRec => 3
-  | .selectCycle => 4
-  | .jsonify => 2
-  | .populateConvertCycle => 2
-  | .prettyWriteCycle => 5
-  | _ => 1
+/-! ### the harness families: inputs of size `n` along ONE size dimension, constant nesting -/
+
+/-- one literal of `n` characters that need escaping -/
+def famLiteral (n : Nat) : Term := .lit (List.replicate n '\n') xsdString
+
+/-- ORDER BY with two criteria, the first of which ties on every pair of rows -/
+def famCriteria : List Nat := [0, 1]
+def famEv (c : Nat) (_ _ : Nat) : Ordering := if c = 0 then .eq else .lt
+
+/-- two triple patterns; the first has `n` matches, each of which has one under the second -/
+def famPatterns : List Nat := [0, 1]
+def famMatches (n : Nat) (p : Nat) (b : Nat) : List Nat := if p = 0 then List.replicate n b else [b]
+
+/-- node 0 names a graph (in the default graph, with an "@graph" entry per node of that graph);
+nodes 1..n are the subjects described in that named graph -/
+def famJNodes (n : Nat) : List JNode :=
+  ⟨false, true, false, some ((List.range n).map (· + 1))⟩ ::
+    List.replicate n ⟨false, false, false, none⟩
+
+/-- `SELECT ?g { GRAPH ?g { ?s ?p ?o } }` -/
+def famQuery : Alg := .project (.graphVar .bgp)
+
+/-- one flat list of `n` items, as the object that `convert_rdf_object` is called on -/
+def famList (n : Nat) : LItem := .sub (LItems.ofList (List.replicate n .leaf))
+
+/-- the arcs of one subject: `k` plain objects and one collection of `n` plain items -/
+def famListArc (n : Nat) : PArcs :=
+  .cons .atom (.coll (PTs.ofList (List.replicate n .atom))) false .nil .nil
+def famArcsAux (n : Nat) : Nat → PArcs
+  | 0 => famListArc n
+  | k + 1 => .cons .atom .atom false .nil (famArcsAux n k)
+def famArcs (n : Nat) : PArcs := famArcsAux n n
+
+/-- the deepest tree that the writer sees for a chain of `n` blank nodes: the whole chain, or —
+when _pretty.rs caps the nesting of `[ … ]` at `c` — a piece of `c` links -/
+def famChain (n : Nat) : PArcs :=
+  let k := match prettyBnodeNestingCap with
+    | none => n
+    | some c => min n c
+  PArcs.cons .atom (chainPT k) false .nil .nil
+
+/-- the shape of the harness input (all shapes have `n` statements / items / rows and no quoted
+triple; `bnodeChain` = `n` blank nodes linked in a chain) -/
+inductive Shape where
+  | flat
+  | bnodeChain
+  deriving Repr, DecidableEq, Inhabited
+
+/-- what a self call on the remainder of the data costs when /repo's text has one that this file
+does not transcribe: one call per element (the convention for an unknown data recursion) -/
+def assumedLinear (n : Nat) : Nat := n + 1
 
 /-- depth of the model of site `f`, in the formulation selected by `cls`, on the harness family of
-size `n` (n skipped rows / escaped characters / graph names / list cells / subjects) -/
-def siteDepth (f : Fn) (cls : SiteClass) (n : Nat) : Nat :=
+shape `sh` and size `n` -/
+def siteDepth (f : Fn) (cls : SiteClass) (sh : Shape) (n : Nat) : Nat :=
   match f with
   | .gspoNext | .bcdNext | .cdNext | .spoNext | .bcNext =>
     let k := f.arity
@@ -358,48 +407,100 @@ def siteDepth (f : Fn) (cls : SiteClass) (n : Nat) : Nat :=
   | .markListNode =>
     let cells := (List.range n).map (fun i => (⟨i, true, true⟩ : Cell))
     ((if isRec cls then markRec else markLoop) cells).2
+  | .dedupNext =>
+    -- one subject with `n` statements: `n` equal (graph, subject) pairs after the first
+    ((if isRec cls then dedupRec else dedupLoop) (some 0) (List.replicate n 0)).depth
   | .findSubject =>
     -- worst case of the search: the subject is greater than every entry
-    if isRec cls then n + 1
+    if isRec cls then assumedLinear n
     else match cls with
       | .loop => 1
       | _ => (findSubject (fun _ => .lt) (List.range n)).2
-  | _ =>
-    -- sites without a dedicated data model: a data recursion would add one call per element
-    if isRec cls then n + 1
-    else match cls with
-      | .loop => 1
-      | _ => f.nestingDepth
+  | .cmpBindingsWith =>
+    if isRec cls then assumedLinear n else orderByDepth famEv famCriteria (List.range n)
+  | .bgpRec =>
+    if isRec cls then assumedLinear n else (bgpRec (famMatches n) famPatterns 0).2
+  | .jsonify =>
+    if isRec cls then assumedLinear n else intoJsonDepth (famJNodes n)
+  | .nq =>
+    if isRec cls then assumedLinear n else (nqW (famLiteral n)).2
+  | .termCmp =>
+    if isRec cls then assumedLinear n else (termCmpD (famLiteral n) (famLiteral n)).2
+  | .termEq =>
+    if isRec cls then assumedLinear n else (termEqD (famLiteral n) (famLiteral n)).2
+  | .termHash =>
+    if isRec cls then assumedLinear n else (termHashD (famLiteral n)).2
+  | .ntWriteTermCycle =>
+    if isRec cls then assumedLinear n else (ntWriteTerm (famLiteral n)).2
+  | .selectCycle =>
+    if isRec cls then assumedLinear n else selectD n famQuery
+  | .populateConvertCycle =>
+    if isRec cls then assumedLinear n else convertD (famList n)
+  | .prettyWriteTerm | .prettyWriteCycle =>
+    if isRec cls then assumedLinear n
+    else match sh with
+      | .flat => wTree .atom (famArcs n)
+      | .bnodeChain => wTree .atom (famChain n)
 
-/-- what the property allows at a site: a constant, plus the logarithm for the binary search -/
+/-- what the property allows at a site on the `flat` shape: the general bound of the site's model
+(`SophiaProofs.C16`) at the nesting of the harness family — a constant, plus the logarithm for the
+binary search -/
 def siteBound (f : Fn) (n : Nat) : Nat :=
   match f with
+  | .gspoNext | .bcdNext | .cdNext | .spoNext | .bcNext
+  | .quotedString | .graphRec | .populateList | .markListNode | .dedupNext => 1
   | .findSubject => bits n + 1
-  | _ => f.nestingDepth
+  | .cmpBindingsWith => famCriteria.length + 1
+  | .bgpRec => famPatterns.length + 1
+  | .jsonify => 2
+  | .nq => 2 + nesting (famLiteral 0)
+  | .termCmp | .termEq | .termHash => 1 + nesting (famLiteral 0)
+  | .ntWriteTermCycle => 1 + 2 * nesting (famLiteral 0)
+  | .selectCycle => 3 * famQuery.height + 1
+  | .populateConvertCycle => 1 + 2 * (famList 0).nest
+  -- one collection below the subject
+  | .prettyWriteTerm | .prettyWriteCycle => 5 + 6 * 1
 
-/-! ## Harness sites (`harness/props/c16`): which functions of /repo a request drives -/
+/-! ## Harness sites (`harness/props/c16`): which functions of /repo a request drives, on which shape -/
 
-def harnessFns : String → Option (List Fn)
-  | "iter_gspo_first" | "iter_gspo_last" => some [.gspoNext]
-  | "iter_bcd_first" | "iter_bcd_last" => some [.bcdNext]
-  | "iter_cd_first" | "iter_cd_last" => some [.cdNext]
-  | "iter_spo_first" | "iter_spo_last" => some [.spoNext]
-  | "iter_bc_first" | "iter_bc_last" => some [.bcNext]
-  | "nt_literal" => some [.quotedString, .ntWriteTermCycle]
-  | "c14n_literal" => some [.nq, .termCmp, .termEq, .termHash]
+def flatFns (fs : List Fn) : Option (List (Fn × Shape)) := some (fs.map (·, .flat))
+
+def harnessFns : String → Option (List (Fn × Shape))
+  -- a matcher (closure / array of constants) rejects `n` rows before the first it accepts
+  | "iter_gspo_g" | "iter_gspo_first" | "iter_gspo_p" | "iter_gspo_last" | "fast_gspo_s" | "match_slice_g"
+  | "mut_remove_ds" => flatFns [.gspoNext]
+  | "iter_bcd_first" | "iter_bcd_p" | "iter_bcd_last" | "fast_bcd_g" => flatFns [.bcdNext]
+  | "iter_cd_first" | "iter_cd_last" | "fast_cd_s" => flatFns [.cdNext]
+  | "iter_spo_first" | "iter_spo_p" | "iter_spo_last" | "fastg_spo_p" | "match_slice_s" => flatFns [.spoNext]
+  | "iter_bc_first" | "iter_bc_last" | "fastg_bc_s" => flatFns [.bcNext]
+  -- `range(..).filter(..)` (std's Filter); `n` rows removed / retained, none skipped by a matching iterator
+  | "iter_filter_o" | "mut_retain_ds" | "mut_remove_g" | "mut_fast_ds" => flatFns []
+  -- one literal with `n` escapes
+  | "nt_literal" => flatFns [.quotedString, .ntWriteTermCycle]
+  -- `n` literals with one escape each
+  | "nq_stream" => flatFns [.ntWriteTermCycle]
+  | "c14n_literal" | "c14n_many" => flatFns [.nq, .termCmp, .termEq, .termHash]
   -- `graph` first evaluates the inner pattern with the empty graph matcher `&[]` (for the variables):
   -- that scan goes through GspoMatchingIterator and skips every quad of every named graph
-  | "sparql_graph" => some [.graphRec, .gspoNext, .selectCycle, .bgpRec]
+  | "sparql_graph" => flatFns [.graphRec, .gspoNext, .selectCycle, .bgpRec]
   -- the iterator behind a BGP skips nothing here (its matchers accept every row)
-  | "sparql_bgp" => some [.bgpRec, .selectCycle]
-  | "jsonld_list" => some [.markListNode, .populateList, .populateConvertCycle, .jsonify]
-  | "turtle_list" => some [.prettyWriteCycle, .prettyWriteTerm, .findSubject]
-  | "turtle_subjects" => some [.findSubject, .prettyWriteCycle, .prettyWriteTerm]
-  -- one subject with `size` objects: `size - 1` consecutive duplicates of (graph, subject)
-  | "turtle_objects" => some [.dedupNext, .prettyWriteCycle, .prettyWriteTerm, .findSubject]
-  -- rio parsers + `insert`: no anchored function scales with the number of statements
-  | "parse_nt" => some []
-  | "parse_turtle" => some []
+  | "sparql_bgp" | "sparql_filter" | "sparql_ops" => flatFns [.bgpRec, .selectCycle]
+  | "sparql_orderby" => flatFns [.cmpBindingsWith, .bgpRec, .selectCycle]
+  -- one list of `n` items
+  | "jsonld_list" => flatFns [.markListNode, .populateList, .populateConvertCycle, .jsonify]
+  -- `n / 2` lists of two items: the walks along a list are two cells long
+  | "jsonld_lists" => flatFns [.populateConvertCycle, .jsonify]
+  | "jsonld_graphs" | "jsonld_nodes" | "jsonld_chain" => flatFns [.jsonify]
+  -- one subject with `n` objects: `n - 1` consecutive duplicates of (graph, subject)
+  | "turtle_objects" => flatFns [.dedupNext, .prettyWriteCycle, .prettyWriteTerm, .findSubject]
+  | "turtle_list" | "turtle_lists" | "turtle_subjects" | "turtle_literal" | "trig_graphs" =>
+    flatFns [.prettyWriteCycle, .prettyWriteTerm, .findSubject]
+  -- every blank node of the chain is the subject of ONE statement: nothing for DedupIterator to skip
+  | "turtle_chain" => some [(.prettyWriteCycle, .bnodeChain), (.prettyWriteTerm, .bnodeChain), (.findSubject, .flat)]
+  -- rio parsers / formatters, json-ld, `insert`: no anchored function scales with the number of statements
+  | "parse_nt" | "parse_nq" | "parse_turtle" | "parse_turtle_list" | "parse_turtle_objects" | "parse_trig"
+  | "parse_rdfxml" | "parse_jsonld" | "parse_jsonld_list" | "rdfxml_ser" | "turtle_stream" | "trig_stream" =>
+    flatFns []
   | _ => none
 
 /-- the row of the generated table for `f` (first row whose name maps to `f`) -/
